@@ -13,8 +13,8 @@ def plan(pid, tier, seed):
         ]
     else:
         mc = [
-            {"module": "SpringApi", "cfg": "SpringApi_MC_thorough.cfg", "emit": True, "sample": 20000, "properties": PROPS, "timeout": 3000},
-            {"module": "SpringApi", "cfg": "SpringApi_Gen.cfg", "emit": True, "sample": 40000, "properties": PROPS, "timeout": 1800},
+            {"module": "SpringApi", "cfg": "SpringApi_MC_thorough.cfg", "emit": True, "sample": 12000, "properties": PROPS, "timeout": 3000},
+            {"module": "SpringApi", "cfg": "SpringApi_Gen.cfg", "emit": True, "sample": 24000, "properties": PROPS, "timeout": 1800},
         ]
     if quick and pid == "C07":     # C07 only needs the multi-run histories
         mc = [dict(mc[1], sample=1000)]
@@ -24,6 +24,7 @@ def plan(pid, tier, seed):
         "mc": mc,
         "gen": [],
         "rand": 300 if quick else 6000,
+        "run_timeout": 6000,      # half of the command-line cases serve two projects one after the other: the replay takes longer
         "trace": TRACE,
     }
 
